@@ -348,7 +348,7 @@ var c26Unary = []struct{ Name, Tmpl string }{
 	{"or-right", "false || %G"},
 	{"not", "! %G"},
 	{"pipe-left", "%G | while read ll; do echo \"<$ll>\"; done"},
-	{"pipe-right", "echo in | %G"},
+	{"pipe-right", "true | %G"}, // the left side writes nothing: a writer racing a non-reading right side gets SIGPIPE in bash only
 	{"redir-out", "{\n%S\n} > o1; while read ll; do echo \"<$ll>\"; done < o1"},
 	{"case-body", "case x in x)\n%S\n;; esac"},
 }
@@ -382,10 +382,12 @@ func (s c26Stmt) grp() string {
 	return "{\n" + s.src + "\n}"
 }
 
-// c26Loops reports whether putting statement s in the condition of a while
+// c26LoopsForever reports whether putting statement s in the condition of a while
 // loop would never terminate (a `continue` reaching that loop).
 func c26LoopsForever(desc string) bool {
-	return strings.Contains(desc, "continue") && !strings.Contains(desc, "continue-nested") && !strings.Contains(desc, "continue-out") && !strings.Contains(desc, "continue-0-in")
+	// (continue-out-of-range is `continue 3` inside two loops: it reaches the
+	// enclosing while as well)
+	return strings.Contains(desc, "continue") && !strings.Contains(desc, "continue-nested") && !strings.Contains(desc, "continue-0-in")
 }
 
 func c26ApplyU(ui int, s c26Stmt) c26Stmt {
